@@ -687,7 +687,14 @@ package kcp
 //@ func aeadCrypt.Open inline
 //@ func aeadCrypt.NonceSize inline
 //@ func aeadCrypt.Overhead inline
-//@ func aeadCrypt.Seal inline
+// (C08, last clause) The wrapper either refuses (its explicit panic) or seals inside the caller's
+// buffer: checked as a unit of its own, whatever capacity the caller passes; callers still see
+// the body (inline), so the capacity arithmetic of postProcess is checked against the real test.
+//@ func aeadCrypt.Seal inline panics
+//@   requires a != nil && a.aead != nil && len(nonce) == aeadns(a.aead)
+//@   modifies dst[..]
+//@   ensures @C08 @C10 [sealed-packet-stays-in-the-callers-buffer] ref(result) == ref(dst) && off(result) == off(dst) && cap(result) == cap(dst)
+//@   ensures @C08 [sealed-length] len(result) == len(dst) + len(plaintext) + aeadov(a.aead)
 
 // ===================================================================================
 // sess.go
